@@ -12,9 +12,12 @@ DESIGN_REF = "DESIGN.md §5 C45"
 
 import os
 _T = int(os.environ.get("VP_PROBE_T", "0"))
+_CUT = sum([["--remove-function-body", f] for f in ("common_timeout_callback", "event_once_cb", "event_loopexit_cb",
+        "evthread_notify_drain_default", "evthread_notify_drain_eventfd")], [])
 def _ob(name, defs, desc, **kw):
     d = dict(name=name, harness="C45_watchers.c", entry="harness_watchers", sources=["evmap.c"], defines=defs,
-             unwind=8, timeout=600, mem_gb=3, desc=desc)
+             unwind=8, timeout=600, mem_gb=3, desc=desc,
+             cbmc=["--paths", "lifo"], instrument=[_CUT])
     d.update(kw)
     if _T: d["timeout"] = _T
     return d
